@@ -137,13 +137,15 @@ def canceled (s : State) (c : CfgId) : Bool :=
   | some cs => cs.canceled
   | none => false
 
-/-- reverseproxy.go:1124-1187 with try_duration = try_interval = 0 and no retry_match -/
-def tryAgain (p : Params) (retries : Nat) (e : ErrKind) (isGet : Bool) : Bool :=
-  p.retries != 0 && decide (retries < p.retries) && !(e == ErrKind.other && !isGet)
+/-- reverseproxy.go:1124-1187 with try_duration = 0, a small positive try_interval and no
+    retry_match; `canc` = the handler's context is already cancelled when the `select` between
+    the interval timer and `ctx.Done()` is reached (then `ctx.Done()` is the only ready case) -/
+def tryAgain (p : Params) (retries : Nat) (e : ErrKind) (isGet : Bool) (canc : Bool) : Bool :=
+  p.retries != 0 && decide (retries < p.retries) && !(e == ErrKind.other && !isGet) && !canc
 
 /-- the request after `tryAgain` answered: next loop iteration (`retries++`) or return -/
-def Req.decided (q : Req) (e : ErrKind) : Req :=
-  if tryAgain q.par q.retries e q.isGet then { q with lastErr := e, pc := .start, retries := q.retries + 1 }
+def Req.decided (q : Req) (e : ErrKind) (canc : Bool) : Req :=
+  if tryAgain q.par q.retries e q.isGet canc then { q with lastErr := e, pc := .start, retries := q.retries + 1 }
   else { q with lastErr := e, pc := .done }
 
 def Req.keepErr (q : Req) : ErrKind := if q.lastErr = .none then .noUpstream else q.lastErr
@@ -180,7 +182,7 @@ def stepNoUpstream (s : State) (r : Nat) : Option State :=
   match s.reqs[r]? with
   | some q =>
     match q.pc with
-    | .start => some { s with reqs := s.reqs.set r (q.decided q.keepErr) }
+    | .start => some { s with reqs := s.reqs.set r (q.decided q.keepErr (canceled s q.cfg)) }
     | _ => none
   | none => none
 
@@ -210,7 +212,7 @@ def stepSpawn (s : State) (r : Nat) (i : Nat) : Option State :=
       else none
     | .failInc h =>
       if spawnOk q h e then
-        some { s with reqs := s.reqs.set r (q.decided q.lastErr), log := s.log.set i { e with st := .waiting } }
+        some { s with reqs := s.reqs.set r (q.decided q.lastErr (canceled s q.cfg)), log := s.log.set i { e with st := .waiting } }
       else none
     | _ => none
   | _, _ => none
@@ -234,7 +236,7 @@ def stepAfter (s : State) (r : Nat) : Option State :=
           some { s with reqs := s.reqs.set r { q with pc := .failInc h, lastErr := out.errKind },
                         fails := upd s.fails h (s.fails h + 1),
                         log := s.log ++ [newFail q h s.now (some out)] }
-        else some { s with reqs := s.reqs.set r (q.decided out.errKind) }
+        else some { s with reqs := s.reqs.set r (q.decided out.errKind (canceled s q.cfg)) }
       else some { s with reqs := s.reqs.set r { q with pc := .done } }
     | _ => none
   | none => none
